@@ -445,8 +445,28 @@ func checkSchema(p *Program, r *RuleResult, keep func(*xmlStruct) bool, strictCa
 			continue
 		}
 		if xs.Name == nil {
+			// a struct without XMLName takes its element name from the field
+			// that holds it: fine when every such field names it
+			named, unnamed := 0, 0
+			for _, other := range p.wireStructs() {
+				for i := range other.Fields {
+					f := &other.Fields[i]
+					if f.Elem == xs.Named {
+						if f.Local != "" {
+							named++
+						} else {
+							unnamed++
+						}
+					}
+				}
+			}
+			if named > 0 && unnamed == 0 {
+				r.Ob(true)
+				r.Note("%s has no XMLName: it is named by the %d field(s) that hold it", xs.Label, named)
+				continue
+			}
 			r.Ob(false)
-			r.Violation("noname|"+xs.Label, pos, "wire struct "+xs.Label+" has xml-tagged fields but no XMLName tag: its element name would depend on the use site", nil)
+			r.Violation("noname|"+xs.Label, pos, "wire struct "+xs.Label+" has xml-tagged fields but no XMLName tag, and is not (only) held by fields that name it: its element name would be its Go type name", nil)
 			continue
 		}
 		r.Role("wire-struct")
@@ -455,8 +475,28 @@ func checkSchema(p *Program, r *RuleResult, keep func(*xmlStruct) bool, strictCa
 			if strings.HasPrefix(xs.Name.Space, "urn:verif") {
 				continue
 			}
+			// an element the transcribed tables do not have: other
+			// specifications define elements in these namespaces too (RFC 3253
+			// supported-report-set, RFC 4331 quota, vendor extensions) — that
+			// is a violation only when it looks like a slip: the local name
+			// exists in ANOTHER namespace of the tables (namespace mix-up) or
+			// differs from a known name of its namespace by a letter or two
+			why := ""
+			for kn := range rfcTable {
+				if kn.Local == xs.Name.Local && kn.Space != xs.Name.Space {
+					why = fmt.Sprintf("the tables know <%s>: the namespace looks mixed up", kn)
+				}
+				if kn.Space == xs.Name.Space && kn.Local != xs.Name.Local && editDistanceAtMost(kn.Local, xs.Name.Local, 2) && len(kn.Local) > 4 {
+					why = fmt.Sprintf("the tables know <%s>: the name looks misspelt", kn)
+				}
+			}
+			if why == "" {
+				r.Ob(true)
+				r.Note("%s declares <%s>, which is not in the transcribed RFC tables (an element of another specification or an extension): not checked", xs.Label, xs.Name)
+				continue
+			}
 			r.Ob(false)
-			r.Violation("unknown-element|"+xs.Label+"|"+xs.Name.String(), pos, fmt.Sprintf("wire struct %s declares element <%s>, which none of RFC 4918/3744/5397/5323/5689/6578/4791/6352 defines", xs.Label, xs.Name), nil)
+			r.Violation("unknown-element|"+xs.Label+"|"+xs.Name.String(), pos, fmt.Sprintf("wire struct %s declares element <%s>, which none of RFC 4918/3744/5397/5323/5689/6578/4791/6352 defines; %s", xs.Label, xs.Name, why), nil)
 			continue
 		}
 		spec := cands[0]
@@ -855,4 +895,80 @@ func addressableMarshalersRule(c *Ctx, pr *PropertyRun, prop string) {
 	if p.Control {
 		r.ExpectControl("value-marshaler|internal.zzVerifControlByValue")
 	}
+}
+
+// editDistanceAtMost: Levenshtein distance of a and b is <= k (k small).
+func editDistanceAtMost(a, b string, k int) bool {
+	if d := len(a) - len(b); d > k || -d > k {
+		return false
+	}
+	prev := make([]int, len(b)+1)
+	for j := range prev {
+		prev[j] = j
+	}
+	for i := 1; i <= len(a); i++ {
+		cur := make([]int, len(b)+1)
+		cur[0] = i
+		for j := 1; j <= len(b); j++ {
+			c := prev[j-1]
+			if a[i-1] != b[j-1] {
+				c++
+			}
+			if prev[j]+1 < c {
+				c = prev[j] + 1
+			}
+			if cur[j-1]+1 < c {
+				c = cur[j-1] + 1
+			}
+			cur[j] = c
+		}
+		prev = cur
+	}
+	return prev[len(b)] <= k
+}
+
+// eagerEncodingRule: the iCalendar / vCard text of an object is produced while
+// the answer is being BUILT (inside the property function, whose error becomes
+// that property's status), not while it is being WRITTEN: a custom
+// MarshalXML/MarshalText that runs a fallible encoder fails after the 207
+// status has been sent, and the body breaks off in the middle.
+func eagerEncodingRule(c *Ctx, pr *PropertyRun, prop string) {
+	p := c.P
+	r := NewRule(prop, prop+".eager-encoding", "no MarshalXML/MarshalText method of the library runs the iCalendar or vCard encoder (or any other fallible third-party encoder): property values are encoded before the response is started, so a failure is one property's status, not a truncated body (E4)")
+	pr.Rules = append(pr.Rules, r)
+	for _, fn := range p.ModFns {
+		if !inLib(fn) || len(fn.Blocks) == 0 || fn.Signature.Recv() == nil {
+			continue
+		}
+		switch fn.Name() {
+		case "MarshalXML", "MarshalText", "MarshalXMLAttr":
+		default:
+			continue
+		}
+		r.Role("marshal-method")
+		bad := ""
+		seen := map[*ssa.Function]bool{}
+		var visit func(f *ssa.Function, depth int)
+		visit = func(f *ssa.Function, depth int) {
+			if seen[f] || depth > 3 {
+				return
+			}
+			seen[f] = true
+			eachCall(f, func(site ssa.CallInstruction) {
+				n := calleeName(site.Common())
+				if n == "(*"+pkgIcal+".Encoder).Encode" || n == "(*"+pkgVcard+".Encoder).Encode" {
+					bad = n
+				}
+				if callee := site.Common().StaticCallee(); callee != nil && inLib(callee) && callee.Name() != "MarshalXML" {
+					visit(callee, depth+1)
+				}
+			})
+		}
+		visit(fn, 0)
+		r.Ob(bad == "")
+		if bad != "" {
+			r.Violation("lazy-encoding|"+fnKey(fn), p.Pos(fn.Pos()), fmt.Sprintf("%s runs %s: it is called while the multi-status is being written, after the 207 status has gone out — when the encoder refuses the object the body breaks off and the remaining resources and properties are lost; encode in the property function, where the error becomes that property's status", fnKey(fn), bad), nil)
+		}
+	}
+	r.RequireRole("marshal-method")
 }
